@@ -366,6 +366,14 @@ def run(ctx: Ctx) -> None:
     for i in range(npk_full):
         f, m = gen.gen_package(rng, f"pk{i}", nm)
         files.update(f); meta.update(m); pkgs.append(f"pk{i}")
+    # aliased imports whose alias is public (in __all__, in annotations, re-exported by the package __init__): a small
+    # batch on its own stream (the pool's streams stay as verified); a larger one when the ImportTracker tie broke
+    import random as _random
+    arng = _random.Random(f"C19-search-aliased:{ctx.seed % POOL if ctx.quick() else ctx.seed}")
+    nali = 8 if ctx.coverage.get("import_disagreements") else ctx.pick(2, 12)
+    for i in range(nali):
+        f, m = gen.gen_package(arng, f"al{i}", 4, features=gen.ALIAS_FEATURES, inits=gen.ALIAS_INITS)
+        files.update(f); meta.update(m); pkgs.append(f"al{i}")
     # the hand-written corpus package travels with the generated ones (corpus/c19/corp)
     cdir = os.path.join(os.path.dirname(os.path.dirname(os.path.dirname(os.path.abspath(__file__)))), "corpus", "c19", "corp")
     for fn in sorted(os.listdir(cdir)):
